@@ -1,7 +1,52 @@
+import ElvisVerif.Model.Reasm
 import Driver.Common
-/-! Line-protocol handlers for C11 (sub-commands `c11` / `c11-*`). -/
-namespace Driver.C11
+import Driver.C10
+/-! Line-protocol handlers for C11 (sub-commands `c11` / `c11-*`).
 
-def dispatch (_sub : String) (_i _o : IO.FS.Stream) : Option (IO Unit) := none
+```
+case <id>
+dgram <11 header fields> <body>      (oracle bookkeeping only; the model answers `ok`)
+pkt <ihl> <tos> <tl> <ident> <fo> <flags> <ttl> <proto> <cksum> <src> <dst> <body>
+cull <src> <dst> <proto> <ident> <epoch> <token#>
+```
+`pkt` = `Reassembly::receive_packet`, `cull` = `Reassembly::maybe_cull_segment` (`token#` is for
+the harness oracle only).  Every answer ends with the number of allocated buffers. -/
+namespace Driver.C11
+open Elvis.Frag Elvis.Reasm
+
+/-- the behaviour of the code currently in the repository -/
+def cfg : Cfg := Cfg.fixed
+
+def showId (id : BufId) : String := s!"{id.src},{id.dst},{id.proto},{id.ident}"
+
+def showOut (r : Reassembly) : Out → String
+  | .res (.complete h b) => s!"C{Driver.C10.showFrag (h, b)} n={r.segments.length}"
+  | .res (.incomplete t id e) => s!"I {t} {showId id} {e} n={r.segments.length}"
+  | .panic e => s!"P:{e} n={r.segments.length}"
+  | .culled a b => s!"cull {if a then 1 else 0} {if b then 1 else 0} n={r.segments.length}"
+
+def parseOp : List String → Option Op
+  | "pkt" :: rest => do
+    let b ← rest.getLast?
+    let h ← Driver.C10.parseHdr rest.dropLast
+    let body ← Driver.C10.parseBody b
+    pure (.pkt h body)
+  | ["cull", src, dst, proto, ident, epoch, _tok] => do
+    pure (.cull ⟨← src.toNat?, ← dst.toNat?, ← proto.toNat?, ← ident.toNat?⟩ (← epoch.toNat?))
+  | _ => none
+
+def step (r : Reassembly) (ws : List String) : Reassembly × String :=
+  match ws with
+  | ["case", id] => (Reassembly.new, s!"case {id}")
+  | "dgram" :: _ => (r, "ok")
+  | _ =>
+    match parseOp ws with
+    | none => (r, "bad-op")
+    | some op =>
+      let (r', o) := Elvis.Reasm.step cfg r op
+      (r', showOut r' o)
+
+def dispatch (sub : String) (i o : IO.FS.Stream) : Option (IO Unit) :=
+  if sub == "c11" || sub.startsWith "c11-" then some (Driver.loop i o step Reassembly.new) else none
 
 end Driver.C11
